@@ -2,7 +2,7 @@
 (mitmproxy/io/io.py, mitmproxy/io/tnetstring.py, get_state/from_state of every flow class)
 
 Shared helpers (value wire codec, flow builder, reader wrappers) are also used by harness/c37.py."""
-import hashlib, io, json, math, os, random, tempfile, threading, warnings
+import hashlib, io, json, math, os, random, tempfile, warnings
 from common.check import PropertyCheck, CaseTimeout, hx, unhx
 
 warnings.simplefilter("ignore", DeprecationWarning)
@@ -127,18 +127,20 @@ def err_name(e):
     return "other:" + type(e).__name__
 
 
-def run_pop(data):
+def run_pop(data, shallow=False):
     try:
         v, rest = tnetstring.pop(memoryview(data))
+        if shallow: return ["ok"]
         return ["ok", canon(v), hx(bytes(rest))]
     except Exception as e:
         n = err_name(e)
         return ["err", "ValueError" if n == "empty" else n]
 
 
-def run_load(fo):
+def run_load(fo, shallow=False):
     try:
         v = tnetstring.load(fo)
+        if shallow: return ["ok"]
         return ["ok", canon(v), hx(fo.read())]
     except Exception as e:
         return ["err", err_name(e)]
@@ -187,16 +189,6 @@ def record_outcomes(data):
     return "".join(out) or "-"
 
 
-def in_thread(fn):
-    """run fn on a fresh interpreter stack (fixed recursion head-room)"""
-    res = []
-    def run():
-        try: res.append(fn())
-        except BaseException as e: res.append(e)  # noqa
-    t = threading.Thread(target=run); t.start(); t.join()
-    return res[0]
-
-
 def nest(k, inner=b""):
     d = inner
     for _ in range(k):
@@ -208,8 +200,9 @@ _DEPTH = {}
 
 
 def deep_entry(entry, data):
-    if entry == "pop": return run_pop(data)
-    if entry == "load": return run_load(io.BytesIO(data))
+    # only the status is kept: the parsed tower itself is too deep to pickle/JSON-encode
+    if entry == "pop": return [x for x in run_pop(data, shallow=True)]
+    if entry == "load": return [x for x in run_load(io.BytesIO(data), shallow=True)]
     fo = io.BytesIO(data)
     try:
         list(FlowReader(fo).stream()); return ["ok"]
@@ -217,18 +210,42 @@ def deep_entry(entry, data):
         return ["err", "RecursionError" if isinstance(e.__cause__, RecursionError) else "x"]
 
 
-def measured_depth(entry):
+def _stack_depth():
+    import sys
+    f, n = sys._getframe(), 0
+    while f is not None:
+        f = f.f_back; n += 1
+    return n
+
+
+def deep_call(entry, data):
+    """every deep probe and every deep case goes through this one frame, so the interpreter's recursion
+    head-room is the same for the measurement and for the case (both are called from Check._impl):
+    _impl -> measured_depth -> _probe -> deep_entry   and   _impl -> deep_call -> _probe -> deep_entry"""
+    return _probe(entry, data)
+
+
+def measured_depth(entry, key):
     """largest number of container levels below the top-level value that this interpreter parses when the
-    entry point is called from a fresh thread (the model's environment parameter `d`)."""
-    if entry not in _DEPTH:
-        lo, hi = 1, 2000          # nest(lo) parses, nest(hi) does not
+    entry point is called via deep_call from the current stack depth (the model's environment parameter `d`).
+    MUST be called from the same function that then calls deep_call for the case."""
+    if (entry, key) not in _DEPTH:
+        def bad(k):       # _impl -> measured_depth -> bad -> deep_entry : same depth as deep_call's path
+            r = deep_entry(entry, nest(k))
+            return r[0] == "err" and r[1] == "RecursionError"
+        lo, hi = 440, 520         # usual bracket for the default recursion limit of 1000; widened if it does not hold
+        if bad(lo): lo = 1
+        if not bad(hi): hi = 4000
         while hi - lo > 1:
             mid = (lo + hi) // 2
-            r = in_thread(lambda: deep_entry(entry, nest(mid)))
-            if r[0] == "err" and r[1] == "RecursionError": hi = mid
+            if bad(mid): hi = mid
             else: lo = mid
-        _DEPTH[entry] = lo - 1
-    return _DEPTH[entry]
+        _DEPTH[(entry, key)] = lo - 1
+    return _DEPTH[(entry, key)]
+
+
+def _probe(entry, data):
+    return deep_entry(entry, data)
 
 
 # ------------------------------------------------------------------------------------------------
@@ -629,8 +646,8 @@ class Check(PropertyCheck):
             "1-4 flows of random types with every serialised field randomised, written with FlowWriter and read back; mut: "
             "flow files after byte-level and state-level mutations, some through real files with huge length prefixes. "
             "distinct = distinct case content; non-trivial = non-empty input.")
-    budget = {"quick": 9000, "thorough": 420000}
-    time_budget = {"quick": 30, "thorough": 600}
+    budget = {"quick": 6000, "thorough": 420000}
+    time_budget = {"quick": 20, "thorough": 560}
     fingerprints = ["mitmproxy.io.tnetstring:dumps", "mitmproxy.io.tnetstring:dump", "mitmproxy.io.tnetstring:_rdumpq",
                     "mitmproxy.io.tnetstring:load", "mitmproxy.io.tnetstring:parse", "mitmproxy.io.tnetstring:split",
                     "mitmproxy.io.tnetstring:pop", "mitmproxy.io.tnetstring:loads", "mitmproxy.io.io:FlowReader.stream",
@@ -639,24 +656,29 @@ class Check(PropertyCheck):
                     "grammar the model transcribes; float(repr(x)) == x",
                     "get_state/from_state of the flow classes (validated by round trip, not modelled)"]
     parallel = True
-    case_timeout = 20
+    case_timeout = 60
 
     def on_timeout(self, case):
         # "Loading arbitrary bytes either yields flows or fails with a flow-read error": it has to return
         return [f"reading did not return within {self.case_timeout}s (the reader hangs on this input)"]
 
     # ---------------------------------------------------------------------------------------------
+    def setup(self, tier):
+        # the quick tier is cheaper without a process pool (fork + pickling cost more than the cases)
+        self.parallel = tier == "thorough"
+
     def generate(self, rng, tier):
         yield from self.fixed_cases()
+        heavy = 1.0 if tier == "thorough" else 0.45        # share of flow-file cases (large protocol lines)
         while True:
             c = rng.random()
             seed = rng.getrandbits(48)
-            if c < 0.30: yield {"k": "val", "seed": seed}
-            elif c < 0.55: yield {"k": "raw", "seed": seed, **({"file": 1} if rng.chance(0.05) else {})}
-            elif c < 0.56: yield {"k": "deep", "seed": seed}
-            elif c < 0.66: yield {"k": "flows", "specs": rspecs(rng)}
-            else: yield {"k": "mut", "specs": rspecs(rng, n=rng.choice([1, 1, 2, 3]), plain_p=0.5), "seed": seed,
-                         **({"file": 1} if rng.chance(0.03) else {})}
+            if c < 0.10 * heavy: yield {"k": "flows", "specs": rspecs(rng, n=None if tier == "thorough" else rng.choice([1, 1, 2]))}
+            elif c < 0.45 * heavy: yield {"k": "mut", "specs": rspecs(rng, n=rng.choice([1, 1, 2, 3]), plain_p=0.5), "seed": seed,
+                                          **({"file": 1} if rng.chance(0.03) else {})}
+            elif c < 0.46 * heavy + 0.01: yield {"k": "deep", "seed": seed}
+            elif rng.chance(0.5): yield {"k": "val", "seed": seed}
+            else: yield {"k": "raw", "seed": seed, **({"file": 1} if rng.chance(0.05) else {})}
 
     def fixed_cases(self):
         for t in FLOW_TYPES:
@@ -728,7 +750,7 @@ class Check(PropertyCheck):
         if k == "deep":
             r = random.Random(case["seed"])
             entry = case.get("entry") or r.choice(["pop", "load", "reader"])
-            D = measured_depth(entry)
+            D = measured_depth(entry, _stack_depth())       # probes run at depth(_impl)+2
             delta = case["delta"] if "delta" in case else r.choice([-3, -1, 0, 1, 2, 5, 100])
             levels = max(1, D + 1 + delta)
             shape = r.randrange(4) if case["seed"] else 0
@@ -737,7 +759,7 @@ class Check(PropertyCheck):
             if shape == 3 or (case["seed"] and r.random() < 0.3):      # put the tower inside a dict value / key position
                 data = b"1:k," + data
                 data = str(len(data)).encode() + b":" + data + b"}"
-            return {"entry": entry, "D": D, "data_hex": hx(data), "res": in_thread(lambda: deep_entry(entry, data))}
+            return {"entry": entry, "D": D, "data_hex": hx(data), "res": deep_call(entry, data)}      # depth(_impl)+2 as well
         if k == "flows":
             flows = [build_flow(s) for s in case["specs"]]
             states = [f.get_state() for f in flows]
